@@ -1,40 +1,40 @@
 #!/bin/sh
 # usage: try_seed.sh <PROP-ID> <dir-with-patch.diff-and-demo> [check-ids...]
-# 1. confirms the seeded change independently in a scratch worktree (suite passes with it,
-#    demo fails with it, demo passes without it); 2. applies it to /repo, runs the checks
-#    (default: the property's own quick check), reverts; prints a summary.
+# Confirms a seeded change independently and runs the checks against it, all in a scratch
+# worktree of /repo's HEAD (nothing is applied to /repo, evidence of the real tree is not
+# touched): 1. the pinned suite passes with the change, the demo fails with it and passes
+# without it; 2. the property's quick check (or the listed checks) against the changed copy.
 export GOFLAGS=-mod=mod GOPROXY=off GOSUMDB=off GOTOOLCHAIN=local
 ID=$1; SRC=$2; shift 2
 CHECKS=${*:-$ID}
 [ -s $SRC/patch.diff ] || { echo "no patch.diff in $SRC"; exit 2; }
-W=/tmp/tryseed.$$
-git -C /repo worktree add -q $W HEAD || exit 2
-cleanup() { git -C /repo worktree remove --force $W 2>/dev/null; git -C /repo checkout -- . 2>/dev/null; }
+W=/tmp/tryseed.$$; O=/tmp/tryseed.$$.out
+git -C /repo worktree add -q --detach $W HEAD || exit 2
+cleanup() { git -C /repo worktree remove --force $W 2>/dev/null; rm -rf $O /tmp/tryseed.$$.log; }
 trap cleanup EXIT INT TERM
-DEMO=$(cd $SRC && git status --porcelain | grep -a '^??' | awk '{print $2}' | grep -a '_test.go$' | head -1)
+DEMO=$(cd $SRC && git status --porcelain 2>/dev/null | grep -a '^??' | awk '{print $2}' | grep -a '_test.go$' | head -1)
 [ -n "$DEMO" ] || DEMO=$(cd $SRC && find . -name 'seed_demo_test.go' | head -1 | sed 's|^\./||')
+[ -f $SRC/meta.json ] && DEMO=$(python3 -c "import json;print(json.load(open('$SRC/meta.json')).get('demo_test_path_in_repo','$DEMO'))")
 echo "demo test file: $DEMO"
 PKG=./$(dirname $DEMO)
 (cd $W && git apply $SRC/patch.diff) || { echo "RESULT $ID patch-does-not-apply"; exit 1; }
 SUITE=fail
 for try in 1 2 3; do (cd $W && go test -vet=off -count=1 ./... >/tmp/tryseed.$$.log 2>&1) && { SUITE=pass; break; }; done
 echo "suite with change: $SUITE"; [ $SUITE = pass ] || grep -a -- "--- FAIL\|^FAIL\|panic" /tmp/tryseed.$$.log | head -5
-mkdir -p $W/$(dirname $DEMO); cp $SRC/$DEMO $W/$DEMO
+mkdir -p $W/$(dirname $DEMO)
+if [ -f $SRC/$DEMO ]; then cp $SRC/$DEMO $W/$DEMO; else cp $SRC/seed_demo_test.go $W/$DEMO; fi
 DEMOWITH=pass; (cd $W && go test -vet=off -count=1 -run TestSeedDemo $PKG >/tmp/tryseed.$$.log 2>&1) || DEMOWITH=fail
 echo "demo with change: $DEMOWITH"
 (cd $W && git apply -R $SRC/patch.diff)
 DEMOWITHOUT=fail; (cd $W && go test -vet=off -count=1 -run TestSeedDemo $PKG >/tmp/tryseed.$$.log 2>&1) && DEMOWITHOUT=pass
 echo "demo without change: $DEMOWITHOUT"
-rm -f /tmp/tryseed.$$.log
-# run the checks against /repo with the change applied
-[ -z "$(git -C /repo status --porcelain)" ] || { echo "/repo not clean"; exit 2; }
-git -C /repo apply $SRC/patch.diff || { echo "RESULT $ID patch-does-not-apply-to-repo"; exit 1; }
+rm -f $W/$DEMO
+(cd $W && git apply $SRC/patch.diff)
+mkdir -p $O
 for c in $CHECKS; do
-	cd /verif && bin/check $c quick > /tmp/tryseed.$$.$c.out 2>&1; rc=$?
-	nv=$(grep -ac '^VIOLATION' /tmp/tryseed.$$.$c.out)
-	echo "check $c: exit=$rc violations=$nv $(grep -a '^VIOLATION' /tmp/tryseed.$$.$c.out | head -2 | cut -c1-220 | tr '\n' ' ')"
-	[ $rc -eq 2 ] && tail -5 /tmp/tryseed.$$.$c.out | cut -c1-300
-	rm -f /tmp/tryseed.$$.$c.out
+	VERIF_REPO=$W VERIF_OUT=$O /verif/bin/check $c quick > $O/$c.out 2>&1; rc=$?
+	nv=$(grep -ac '^VIOLATION' $O/$c.out)
+	echo "check $c: exit=$rc violations=$nv $(grep -a '^VIOLATION' $O/$c.out | head -2 | cut -c1-220 | tr '\n' ' ')"
+	[ $rc -eq 2 ] && tail -5 $O/$c.out | cut -c1-300
 done
-git -C /repo checkout -- .
 echo "RESULT $ID suite=$SUITE demo_with=$DEMOWITH demo_without=$DEMOWITHOUT"
